@@ -94,7 +94,7 @@ pub fn run_job(line: &str) -> String {
                 Err(ps) => return format!("parse-panic {}", ps.site),
             };
             let prop = p[1].to_string();
-            match pan::catch(|| crate::tree::check(&prop, &tree)) {
+            match pan::catch(|| crate::tree::check(&prop, &tree, &data)) {
                 Ok(v) if v.is_empty() => format!("ok {}", count_nodes(tree.root())),
                 Ok(v) => {
                     let parts: Vec<String> = v.iter().take(20).map(|x| format!("{}\u{1}{}", x.sig, x.what.replace('\n', " ").replace('\u{1}', " ").replace('\u{2}', " "))).collect();
